@@ -139,12 +139,14 @@ CLAIMED = {
             'DESIGN.md 6/C01'),
     'C02': ('Lean 4 theorems stating the replay decision table row by row (key error, first present key in fallback order, '
             'run-original, substitute, missing-key error; output result / default / error), no body runs during replay (induction '
-            'on programs), play() touches the cassette with one get only; tied to /repo by the exhaustive policy table with '
+            'on programs), play() touches the cassette with one get only, a replay restores the interpreter-visible core of the state '
+            '(idempotence by induction over the list of earlier replays); tied to /repo by the exhaustive policy table with '
             'documentation-derived expected answers plus random (recorded, replayed) program pairs',
             'Kernel-checked for every recording and every replayed program: each interception is answered exactly as the '
             'documented policy says, never from another call\'s key, bodies run only under run-original, nothing is created / '
-            'saved / aborted and the stored recordings are unchanged. Idempotence of repeated replays is checked by the tie '
-            '(oracle), not by a theorem.',
+            'saved / aborted and the stored recordings are unchanged; any number of replays of one recording (with any other '
+            'replays in between, also when the replayed code flips the enable switch) give the same answer '
+            '(C02_replay_idempotent, C02_replay_after_replays).',
             'Trusted: Lean kernel; recorder model tied by differential execution; structured keys (text rendering is C06).',
             'DESIGN.md 6/C02'),
     'C03': ('Lean 4 theorems: each intercepted output call adds exactly one entry (alias, next ordinal) -> sent arguments in '
